@@ -1122,8 +1122,35 @@ var ruleD6 = &Rule{
 			}
 			return true
 		})
+		// the mapping may be a table indexed by the matcher type instead of a switch
+		var table *ast.CompositeLit
+		var tableIdx ast.Expr
 		if sw == nil || sw.Tag == nil {
-			return []Obl{{Key: "reader/promql/parser.(*LabelMatcher).GetOp", Pos: c.pos(fd.Pos()), Status: Undecided, Msg: "no switch over the matcher type"}}
+			ast.Inspect(fd.Body, func(n ast.Node) bool {
+				ix, ok := n.(*ast.IndexExpr)
+				if !ok || table != nil {
+					return true
+				}
+				if id, ok := ast.Unparen(ix.X).(*ast.Ident); ok {
+					if lit := c.initLiteralOf(p, info.Uses[id]); lit != nil {
+						if tv, ok := info.Types[ix.X]; ok {
+							if _, isMap := tv.Type.Underlying().(*types.Map); isMap {
+								table, tableIdx = lit, ix.Index
+							}
+						}
+					}
+				}
+				return true
+			})
+			if table == nil {
+				return []Obl{{Key: "reader/promql/parser.(*LabelMatcher).GetOp", Pos: c.pos(fd.Pos()), Status: Undecided, Msg: "no switch over the matcher type and no table indexed by it"}}
+			}
+			sw = &ast.SwitchStmt{Switch: table.Pos(), Tag: tableIdx, Body: &ast.BlockStmt{}}
+			for _, el := range table.Elts {
+				if kv, ok := el.(*ast.KeyValueExpr); ok {
+					sw.Body.List = append(sw.Body.List, &ast.CaseClause{List: []ast.Expr{kv.Key}, Body: []ast.Stmt{&ast.ReturnStmt{Results: []ast.Expr{kv.Value}}}})
+				}
+			}
 		}
 		tagT := namedOf(info.Types[sw.Tag].Type)
 		if tagT == nil {
@@ -1170,6 +1197,10 @@ var ruleD6 = &Rule{
 			if st == sw && i+1 < len(fd.Body.List) {
 				rest = retOf(fd.Body.List[i+1:])
 			}
+		}
+		if table != nil {
+			// the return that follows the table lookup
+			rest = retOf(fd.Body.List)
 		}
 		var names []string
 		for n := range consts {
